@@ -44,6 +44,16 @@ func runReplay(prop, file string) int {
 		}
 		return 0
 	}
+	if op == "scan" {
+		o := newOut(os.TempDir() + "/verif-replay")
+		lexOne(o, text, "replay", true)
+		o.finish()
+		if o.nfail > 0 {
+			fmt.Printf("scan of %q still violates the property\n", text)
+			return 1
+		}
+		return 0
+	}
 	fmt.Println("replay: unknown op", op, "- see the file for the theorem or correspondence that no longer checks")
 	return 1
 }
